@@ -3,6 +3,7 @@ import Req.H1.Response
 import Req.C03.H2Cut
 import Req.C03.H2Pool
 import Req.C03.H3Cut
+import Req.C03.GzipCut
 /-! Driver lanes of C03.
 
 `c03cut <G|H> <eof|hold> <hex stream> <k>`: the peer sends the first `k` bytes of the stream in
@@ -26,6 +27,8 @@ response stream as they arrive, how the stream ends (FIN, stream reset, connecti
 decoded field list of every HEADERS frame (QPACK is external).  Answer: `fail` / `fail-call` /
 `fail-body delivered=…` / `ok status=… body=…` and the dials after the next request (2 iff the
 call failed — `RoundTripOpt` drops the cached connection — or the connection was closed).
+
+`c03gz`: see `laneGz`.
 -/
 namespace Req.Driver.L.C03
 open Req.Proto Req.H1
@@ -132,8 +135,24 @@ def laneH3 : List String → String
     | _, _, _, _ => "bad-op"
   | _ => "bad-op"
 
+/-! ### gzip -/
+
+/-- `c03gz <hex stream> <k> <zlen> <hex plain>`: a gzip-encoded HTTP/1.1 response cut at `k`, then
+EOF; `zlen` / `plain` = the reference decompressor's knowledge of the one complete stream. -/
+def laneGz : List String → String
+  | [hex, ks, zl, plain] =>
+    match decodeHex hex, ks.toNat?, zl.toNat?, decodeHex plain with
+    | some s, some k, some zlen, some plain =>
+      match gzOutcomeRef 4096 (s.take k) zlen plain with
+      | none => "fail"
+      | some (out, .eof) => "ok body=" ++ encodeHex out
+      | some (_, .err _) => "fail"
+    | _, _, _, _ => "bad-op"
+  | _ => "bad-op"
+
 def lanes : List (String × (List String → String)) := [
   ("c03cut", laneCut),
+  ("c03gz", laneGz),
   ("c03h2", laneH2),
   ("c03h3", laneH3)
 ]
